@@ -81,6 +81,7 @@ pub async fn apply(sim: &mut Sim, action: &Action) {
         Action::Finish { exec, ok } => sim.finish_exec(*exec, *ok),
         Action::Advance { secs } => sim.advance(*secs).await,
         Action::ArmLaunchFail { w } => sim.arm_launch_fail(*w),
+        Action::ArmSlowStop { w } => sim.arm_slow_stop(*w),
         Action::AgeWorker { w, secs } => {
             if let Some(h) = sim.workers.get(w) {
                 h.sim.shift_start_time(std::time::Duration::from_secs(*secs));
